@@ -116,17 +116,12 @@ class pile_contents_modified:
 
 PROTOCOLS["SizeArg"] = type("SA", (Protocol,), {"kind": "SizeArg", "methods": {}})()
 
-
-@contract(PI + "Pile.get_rows_sizes", property=(), assumed=True, deterministic=True,
-          notes="(widths, heights, size arguments), one per child (C19/C01 own the values); here only the lengths matter")
-class pile_grs:
-    self_shape = PILE
-    params = dict(size=Opaque("SizeArg"), focus=Bool)
-    result = Tup(ListOf(Dim, tuple_=True), ListOf(Dim, tuple_=True), ListOf(Opaque("SizeArg"), tuple_=True))
-
-    def ensures(old, s, a, result):
-        n = n_items(old)
-        yield "one-entry-per-child", both(Q.seq_len(result[0]) == n, Q.seq_len(result[1]) == n, Q.seq_len(result[2]) == n)
+# sizes: the Pile itself is a box or a flow widget here (the fixed `()` case runs through _get_fixed_rows_sizes and is
+# left to the bounded part); a child is handed (), (c,) or (c, r) -- a value of unknown arity, case-split where used
+PSIZE = Union(Tup(Int, Int), Tup(Int))
+CSIZE = Union(Tup(), Tup(Int), Tup(Int, Int))
+GRS_RESULT = Tup(ListOf(Int, tuple_=True), ListOf(Nat, tuple_=True), ListOf(CSIZE, tuple_=True))  # heights >= 0: clause no-negative-height
+# `Pile.get_rows_sizes` is under a verified contract in contracts/C09_pile.py (the shared geometry of C09/C01)
 
 
 UPDOWN = ("cursor up", "cursor down")
@@ -136,15 +131,18 @@ UPDOWN = ("cursor up", "cursor down")
           inline=PINL + (PI + "Pile._update_pref_col_from_focus", "urwid/widget/widget.py:Widget.selectable"))
 class pile_keypress:
     self_shape = PILE
-    params = dict(size=Opaque("SizeArg"), key=Opaque("Key"))
+    params = dict(size=PSIZE, key=Opaque("Key"))
     result = Opt(Opaque("Key"))
     invariant = staticmethod(pile_ri)
     missing_field = staticmethod(_missing)
     raises = ()
+    qf_branching = True
 
     def requires(s, a):
-        # the statement's containers: selectable exactly when one of its children is (established by _contents_modified)
-        return True
+        # a well-formed Pile at a valid box or flow size (the precondition of the shared geometry, contracts/C09_pile.py)
+        from contracts.C09_pile import pile_geo_requires
+
+        return pile_geo_requires(s, a.size)
 
     def ensures(old, s, a, result):
         st = cur()
@@ -157,6 +155,11 @@ class pile_keypress:
         focus_child = item_at(old, f0)[0]
         if old._selectable:
             yield "offered-to-the-focus-child-only", both(len(kp) == 1, eq(kp[0][1], focus_child) if kp else False, eq(kp[0][3]["key"], a.key) if kp else False)
+            if kp:
+                from contracts.C09_pile import Geo
+
+                # C09: the size handed over with the key is the size the child is rendered at (shared geometry)
+                yield "offered-with-the-rendered-size", V.struct_eq(Geo(old, a.size, True).sa(f0), kp[0][3]["size"])
             key2 = kp[0][4] if kp else None
         else:
             yield "not-offered-to-unselectable-children", len(kp) == 0
